@@ -46,6 +46,7 @@ C10_Failing(g, o) == {n \in C10_Clauses : ~C10_Holds(n, g, o)}
 
 -----------------------------------------------------------------------------
 (* generic helpers over sparse matrices / vectors (module FVOperators)      *)
+UniformAxis(g, a) == \A i \in 0..NCells(g, a) : Size(g, a, i) = Size(g, a, i + 1)
 RowSum(M, r) == RSumSet(MRow(M, r), LAMBDA p : M[p])
 InteriorRowsOnly(g, M) == MRows(M) \subseteq Interior(g)
 VecInteriorOnly(g, v) == \A c \in AllCells(g) : c \notin Interior(g) => RIsZero(v[c])
@@ -210,7 +211,6 @@ C17_MatLinear(M1, M2, M12, lam, mu) == M12 = MAdd(MScale(lam, M1), MScale(mu, M2
 
 -----------------------------------------------------------------------------
 (* TVD identities (C05), totality (C13) *)
-UniformAxis(g, a) == \A i \in 0..NCells(g, a) : Size(g, a, i) = Size(g, a, i + 1)
 \* interior cells none of whose faces is the first or last face of its axis
 AwayFromBoundary(g) == {c \in Interior(g) : \A a \in Axes(g) : c[a] > 1 /\ c[a] < NCells(g, a)}
 \* unit limiter on uniform grids: upwind operator minus the correction is the central operator
@@ -281,12 +281,18 @@ Pre(tr, gs, cb) ==
   CASE tr.kind = "extrude" -> DropIdx(cb, tr.pos)
     [] tr.kind = "permute" -> [j \in 1..Len(cb) |-> cb[CHOOSE a \in 1..Len(cb) : tr.perm[a] = j]]
     [] tr.kind = "mirror"  -> [cb EXCEPT ![tr.axis] = NCells(gs, tr.axis) + 1 - cb[tr.axis]]
+    [] tr.kind = "shift"   ->      \* cyclic shift by tr.by cells along a periodic axis (ghost cells wrap)
+         LET N == NCells(gs, tr.axis)
+             i == cb[tr.axis]
+             j == IF i = 0 THEN N ELSE IF i = N + 1 THEN 1 ELSE i
+         IN  [cb EXCEPT ![tr.axis] = ((j - 1 - tr.by + 2 * N) % N) + 1]
 EmbedField(tr, gs, gb, xs) == [cb \in AllCells(gb) |-> xs[Pre(tr, gs, cb)]]
 \* the geometry of the big grid is the image of the small one
 C08_Geometry(tr, gs, gb) ==
   CASE tr.kind = "extrude" ->
          \A a \in 1..Dim(gb.cls) : a # tr.pos => gb.faces[a] = gs.faces[IF a < tr.pos THEN a ELSE a - 1]
     [] tr.kind = "permute" -> \A a \in 1..Dim(gb.cls) : gb.faces[a] = gs.faces[tr.perm[a]]
+    [] tr.kind = "shift"   -> gb.faces = gs.faces /\ UniformAxis(gs, tr.axis)
     [] tr.kind = "mirror"  ->
          \A a \in 1..Dim(gb.cls) :
             IF a # tr.axis THEN gb.faces[a] = gs.faces[a]
